@@ -179,15 +179,26 @@ class Registry:
 
 
 class lock_factory:
-    """Context manager: threading.Lock/RLock create scheduler-aware locks registered in `reg`."""
+    """Context manager: threading.Lock/RLock called FROM THE REDRESS PACKAGE create scheduler-aware locks registered
+    in `reg`; every other caller (the threading module itself, the harness) gets the real thing.  It stays active for
+    a whole schedule, so a lock the component creates in the middle of a run is scheduler-aware too."""
 
     def __init__(self, reg):
         self.reg = reg
 
     def __enter__(self):
         reg = self.reg
-        threading.Lock = lambda: SchedLock(reg)
-        threading.RLock = lambda: SchedRLock(reg)
+
+        def mk(cls, real):
+            def factory(*a, **kw):
+                if sys._getframe(1).f_code.co_filename.startswith(PKG):
+                    return cls(reg)
+                return real(*a, **kw)
+
+            return factory
+
+        threading.Lock = mk(SchedLock, _REAL_LOCK)
+        threading.RLock = mk(SchedRLock, _REAL_RLOCK)
         return reg
 
     def __exit__(self, *a):
@@ -240,11 +251,15 @@ def uninstall_monitor():
     _INSTALLED[0] = False
 
 
-def build(make):
+def build(make, reg=None):
     """Construct the component with scheduler-aware locks.  Returns (obj, registry, how)."""
-    reg = Registry()
-    with lock_factory(reg):
-        obj = make()
+    own = reg is None
+    if own:
+        reg = Registry()
+        with lock_factory(reg):
+            obj = make()
+    else:
+        obj = make()  # the caller keeps the factory active
     how = "factory"
     if not reg.locks:
         # fallback: replace lock-like instance attributes
@@ -266,7 +281,17 @@ def run_schedule(make, programs, prefix=(), rng=None, watchdog_s=20.0, line_leve
     """
     if line_level:
         install_monitor()
-    obj, reg, how = build(make)
+    reg = Registry()
+    fac = lock_factory(reg)
+    fac.__enter__()
+    try:
+        return _run_schedule(make, programs, prefix, rng, watchdog_s, line_level, preempt_p, reg)
+    finally:
+        fac.__exit__()
+
+
+def _run_schedule(make, programs, prefix, rng, watchdog_s, line_level, preempt_p, reg):
+    obj, reg, how = build(make, reg)
     reg.yield_on_release = line_level
     s = Sched(len(programs), prefix, rng, preempt_p)
     reg.sched = s
